@@ -323,6 +323,15 @@ def py_env():
     env["OMP_NUM_THREADS"] = "1"; env["MKL_NUM_THREADS"] = "1"; env["OPENBLAS_NUM_THREADS"] = "1"
     env["JAX_PLATFORMS"] = "cpu"
     env.pop("PYTHONSTARTUP", None)
+    cov = os.environ.get("VERIF_COVERAGE")
+    if cov:  # diagnostic only (harness/anchor_coverage.py): which lines of the code the implementation runs execute
+        os.makedirs(cov, exist_ok=True)
+        rc = os.path.join(cov, "coveragerc")
+        if not os.path.exists(rc):
+            with open(rc, "w") as f:
+                f.write(f"[run]\nparallel = True\ndata_file = {cov}/.coverage\nsource = {REPO}/pyrates\nsigterm = True\n")
+        env["COVERAGE_PROCESS_START"] = rc
+        env["PYTHONPATH"] = os.path.join(VERIF, "harness", "covhook") + os.pathsep + env["PYTHONPATH"]
     return env
 
 
